@@ -270,7 +270,71 @@ func c14R6(p *engine.Prog, r *engine.Report) {
 			r.Check(ok, "C14-R6", key, p.InstrPos(st), "charged "+engine.PathOf(amount)+" behind the cap test on the same amount", "blockGas is increased by "+engine.PathOf(amount)+" but the cap test covers {"+strings.Join(testedDesc, ", ")+"}: the offered list can exceed the block gas cap")
 		}
 	}
-	r.Floor("C14-R6", 2, "two builder loops")
+	// exact next-nonce gate: a transaction is offered only if its nonce is the sender's running nonce + 1
+	for _, name := range []string{"buildingContext.addTxsToBlock", "buildingContext.addNextPriorityTxToBlock"} {
+		f := mustFunc(p, r, "core/mempool", name)
+		if f == nil {
+			continue
+		}
+		g := guardsWhere(f, func(cond ssa.Value) (bool, bool, string) {
+			x, y, isEq, ok := eqCond(cond)
+			if !ok {
+				return false, false, ""
+			}
+			for _, pr := range [][2]ssa.Value{{x, y}, {y, x}} {
+				add, isAdd := engine.Unwrap(pr[0]).(*ssa.BinOp)
+				if !isAdd || add.Op != token.ADD {
+					continue
+				}
+				if k, isK := engine.ConstInt(add.Y); !isK || k != 1 {
+					continue
+				}
+				if _, fld, okF := engine.FieldOf(engine.Origin(pr[1])); !okF || fld != "AccountNonce" {
+					continue
+				}
+				// the running nonce: from curNoncesPerSender (possibly advanced by earlier accepted transactions)
+				run := false
+				for v := range engine.BackSlice(add.X, engine.DefaultSlice) {
+					if _, fld, okF := engine.FieldOf(v); okF && fld == "curNoncesPerSender" {
+						run = true
+					}
+				}
+				if run {
+					return true, isEq, "running nonce + 1 == tx.AccountNonce"
+				}
+			}
+			return false, false, ""
+		})
+		n := 0
+		ok := len(g) > 0
+		for _, b := range f.Blocks {
+			for _, ins := range b.Instrs {
+				st, isSt := ins.(*ssa.Store)
+				if !isSt {
+					continue
+				}
+				if _, fld, okF := engine.FieldOf(st.Addr); okF && fld == "blockTxs" {
+					n++
+					if !engine.OnlyThroughPass(f, b, g) {
+						// the priority run is charged behind the loop flag (see R6)
+						okFlag := false
+						for _, bb := range f.Blocks {
+							for _, i2 := range bb.Instrs {
+								if ph, isPhi := i2.(*ssa.Phi); isPhi && isBoolType(ph.Type()) && engine.OnlyThroughPassFlag(f, b, g, ph) {
+									okFlag = true
+								}
+							}
+						}
+						if !okFlag {
+							ok = false
+						}
+					}
+				}
+			}
+		}
+		r.Check(ok && n > 0, "C14-R6", engine.RelName(f)+"|offered only with nonce == running nonce + 1", p.Pos(f.Pos()), "exact equality gate before blockTxs grows", "a transaction can be offered although its nonce is not the sender's running nonce + 1 (an inequality or no gate at all): after a skipped transaction its successors are still offered — the list has a nonce hole and the block built from it is invalid")
+	}
+	r.Floor("C14-R6", 4, "two builder loops")
 	_ = n
 }
 
